@@ -24,6 +24,7 @@ type ringCase struct {
 	Class string   `json:"class"`
 	IDs   []uint64 `json:"ids"`
 	NetV  bool     `json:"netv"`
+	RPC   bool     `json:"real_rpc"` // chord.RemoteNode over twirp/HTTP2 on an in-memory transport
 	Seed  int64    `json:"seed"`
 }
 
@@ -108,6 +109,9 @@ func runRing(c ringCase, rep *batch.Report) batch.CaseResult {
 	if c.NetV {
 		mode = ringlab.NetV
 	}
+	if c.RPC {
+		mode = ringlab.RealRPC
+	}
 	lab := ringlab.New(ringlab.Options{Mode: mode, Seed: c.Seed})
 	defer lab.Close()
 	rng := rand.New(rand.NewSource(c.Seed))
@@ -183,7 +187,7 @@ func runRing(c ringCase, rep *batch.Report) batch.CaseResult {
 			}
 			wrap := key > ids[len(ids)-1] || key <= ids[0]
 			isMember := want == key
-			sigs[fmt.Sprintf("%s/n%d/%s/wrap=%v/member=%v/netv=%v", c.Class, bucket(len(ids)), rel, wrap, isMember, c.NetV)] = true
+			sigs[fmt.Sprintf("%s/n%d/%s/wrap=%v/member=%v/netv=%v/rpc=%v", c.Class, bucket(len(ids)), rel, wrap, isMember, c.NetV, c.RPC)] = true
 			if err != nil {
 				res.Violations = append(res.Violations, batch.Viol{Key: "lookup-error", What: fmt.Sprintf("ring %v: FindSuccessor(%d) from %d returned error %v, owner is %d", ids, key, start.ID, err, want),
 					Witness: map[string]any{"ring": ids, "start": start.ID, "key": key, "want": want, "err": err.Error(), "netv": c.NetV}})
@@ -203,6 +207,9 @@ func runRing(c ringCase, rep *batch.Report) batch.CaseResult {
 		}
 	}
 	rep.Count("lookups", int64(lookups))
+	if c.RPC {
+		rep.Count("rings_over_real_rpc", 1)
+	}
 	rep.Count("max_hops_observed", 0)
 	if h := lab.MaxHops.Load(); h > 0 {
 		rep.Count("rings_with_proxied_hops", 1)
@@ -211,8 +218,8 @@ func runRing(c ringCase, rep *batch.Report) batch.CaseResult {
 		res.Sigs = append(res.Sigs, s)
 	}
 	sort.Strings(res.Sigs)
-	res.Sig = fmt.Sprintf("%s/n%d/netv=%v", c.Class, len(ids), c.NetV)
-	res.Sample = map[string]any{"class": c.Class, "ids": ids, "netv": c.NetV, "lookups": lookups, "rounds_to_converge": cv.Rounds}
+	res.Sig = fmt.Sprintf("%s/n%d/netv=%v/rpc=%v", c.Class, len(ids), c.NetV, c.RPC)
+	res.Sample = map[string]any{"class": c.Class, "ids": ids, "netv": c.NetV, "real_rpc": c.RPC, "lookups": lookups, "rounds_to_converge": cv.Rounds}
 	return res
 }
 
@@ -236,7 +243,7 @@ func main() {
 	child.Register("rings", runRings)
 	child.Main()
 	r := ev.Start("C01", "exploration")
-	r.SetRule("rings of real LocalNodes built from layout classes {random, clustered, adjacent(incl. straddling 2^48), extremes(0 and 2^48-1), mixed(power-of-two offsets)} x size x wiring {direct, proxied}; stabilised to the sorted-ring pointer oracle; from EVERY node look up every member id, id+-1, 0, 2^48-1, the 48 finger targets and 16 PRNG ids; distinct+non-trivial = (class, size bucket, owner relative to start {own, succ, far}, key wraps past the largest id, key equals a member id, wiring)")
+	r.SetRule("rings of real LocalNodes built from layout classes {random, clustered, adjacent(incl. straddling 2^48), extremes(0 and 2^48-1), mixed(power-of-two offsets)} x size x wiring {direct, identity-by-ID proxies, the real RPC path (chord.RemoteNode -> twirp over HTTP/2 on an in-memory transport -> the node's RPC server)}; stabilised to the sorted-ring pointer oracle; from EVERY node look up every member id, id+-1, 0, 2^48-1, the 48 finger targets and 16 PRNG ids; distinct+non-trivial = (class, size bucket, owner relative to start {own, succ, far}, key wraps past the largest id, key equals a member id, wiring)")
 	r.Assume("stabilised = predecessor, successor list and 48 fingers equal the sorted-ring oracle (reached through the real background tasks)")
 	rng := r.Rand("rings")
 	classes := []string{"random", "clustered", "adjacent", "extremes", "mixed"}
@@ -249,7 +256,10 @@ func main() {
 		if i < 10 {
 			n = 1 + i%5 // always cover sizes 1..5
 		}
-		c := ringCase{Name: fmt.Sprintf("ring-%d", i), Class: class, IDs: genIDs(rng, class, n), NetV: i%2 == 1, Seed: rng.Int63()}
+		c := ringCase{Name: fmt.Sprintf("ring-%d", i), Class: class, IDs: genIDs(rng, class, n), NetV: i%3 == 1, RPC: i%3 == 2, Seed: rng.Int63()}
+		if c.RPC && len(c.IDs) > 16 {
+			c.IDs = c.IDs[:16]
+		}
 		if r.WantCase(c.Name) {
 			cases = append(cases, c)
 		}
